@@ -19,7 +19,7 @@ def _worker(st, ctx):
     typ = ctx["typ"]
     ins = [lw.State(list(s)) for s in st["ins"]]
     outs0 = [lw.State(list(s)) for s in st["outs0"]]
-    val0 = [[1 + 3 * (i + 1) + (j + 1) for j in range(len(outs0))] for i in range(len(ins))]
+    val0 = [[0 if (i + j + 2) % 3 == 0 else 1 + 3 * (i + 1) + (j + 1) for j in range(len(outs0))] for i in range(len(ins))]
     out = {"findings": [], "case": (st["ins"], st["outs0"], st["maps"], typ)}
     f = out["findings"]
     if typ == "counts":
@@ -42,6 +42,16 @@ def _worker(st, ctx):
             f.append(("index", "inputs / outputs lists are not in the order given"))
     if f:
         return out
+    if typ == "probability_amplitude" and st["maps"]:
+        # an amplitude-valued result whose array happens to hold real numbers is still amplitude-valued
+        r2 = SimulationResult(np.array(val0, dtype=float), typ, inputs=ins, outputs=outs0)
+        kind, inv = st["maps"][0]
+        try:
+            r2.apply_threshold_mapping(invert=inv) if kind == "threshold" else r2.apply_parity_mapping(invert=inv)
+            f.append(("mapping_not_refused", "a %s mapping of an amplitude-valued result (real-valued array) was not refused" % kind))
+            return out
+        except Exception:  # noqa: BLE001
+            pass
     for kind, inv in st["maps"]:
         try:
             r = r.apply_threshold_mapping(invert=inv) if kind == "threshold" else r.apply_parity_mapping(invert=inv)
